@@ -66,7 +66,7 @@ def oracle_fdiv(case):
 # ------------------------------------------------------------------------------------------------ MMD
 @st.composite
 def mmd_case(draw):
-    return {"ovo": draw(st.booleans()), "p": draw(gens.p_spec(pkinds=gens.STRUCTURED_P)), "x": draw(gens.x_spec()),
+    return {"ovo": draw(st.booleans()), "p": draw(gens.p_spec(pkinds=gens.STRUCTURED_P)), "x": draw(gens.x_spec(kinds=gens.LOWLEVEL_KINDS)),
             "a": draw(gens.kernel_spec(forms=("named", "callable", "precomputed", "psd", "indef", "foreign")))}
 
 
@@ -94,7 +94,7 @@ def oracle_mmd(case):
 # ------------------------------------------------------------------------------------------------ Wasserstein
 @st.composite
 def wass_case(draw):
-    return {"ovo": draw(st.booleans()), "p": draw(gens.p_spec(pkinds=gens.STRUCTURED_P, n_max=8, k_max=4)), "x": draw(gens.x_spec()),
+    return {"ovo": draw(st.booleans()), "p": draw(gens.p_spec(pkinds=gens.STRUCTURED_P, n_max=8, k_max=4)), "x": draw(gens.x_spec(kinds=gens.LOWLEVEL_KINDS)),
             "a": draw(gens.metric_spec(forms=("named", "precomputed", "randdist", "foreign")))}
 
 
@@ -116,7 +116,7 @@ def oracle_wass(case):
 @st.composite
 def registry_case(draw):
     return {"name": draw(st.sampled_from(sorted(R.NAMES) + ["<None>"])), "route": draw(st.sampled_from(["model", "table"])),
-            "p": draw(gens.p_spec(pkinds=gens.STRUCTURED_P, n_max=8, k_max=4)), "x": draw(gens.x_spec())}
+            "p": draw(gens.p_spec(pkinds=gens.STRUCTURED_P, n_max=8, k_max=4)), "x": draw(gens.x_spec(kinds=gens.LOWLEVEL_KINDS))}
 
 
 def oracle_registry(case):
@@ -166,7 +166,7 @@ def large_case(draw):
         p = draw(gens.p_spec(pkinds=gens.STRUCTURED_P, n_min=9, n_max=26, k_max=4))
     else:
         p = draw(gens.p_spec(pkinds=gens.STRUCTURED_P, n_min=20, n_max=320, k_min=2, k_max=48))
-    return {"g": gs, "p": p, "x": draw(gens.x_spec())}
+    return {"g": gs, "p": p, "x": draw(gens.x_spec(kinds=gens.LOWLEVEL_KINDS))}
 
 
 def oracle_large(case):
